@@ -12,9 +12,9 @@ import (
 func init() {
 	h := helperFns
 	rstr := func(s string) tt.Res { return tt.Res{Ok: true, S: bs(s)} }
-	h["Substr"] = func(o tt.Op) tt.Res { return rstr(gogu.Substr(str(o.L[0]), o.A[0], o.A[1])) }
+	h["Substr"] = func(o tt.Op) tt.Res { return rstr(gogu.Substr(str(o.L[0]), xint(o.A[0]), xint(o.A[1]))) }
 	h["SplitAtIndex"] = func(o tt.Op) tt.Res {
-		parts := gogu.SplitAtIndex(str(o.L[0]), o.A[0])
+		parts := gogu.SplitAtIndex(str(o.L[0]), xint(o.A[0]))
 		ll := [][]int{}
 		for _, p := range parts {
 			ll = append(ll, bs(p))
@@ -125,6 +125,13 @@ func init() {
 			r.call(hop("SnakeKebab", "", nil, bs(s)))
 			r.call(hop("Capitalize", "", nil, bs(s)))
 			r.call(hop("Substr", "", []int{rng.Intn(40) - 20, rng.Intn(40) - 20}, bs(s)))
+			if i%40 == 0 { // offsets, lengths and split positions at the limits of int (one at a time)
+				for _, x := range xints {
+					r.call(hop("Substr", "", []int{x, 3}, bs(s)))
+					r.call(hop("Substr", "", []int{1, x}, bs(s)))
+					r.call(hop("SplitAtIndex", "", []int{x}, bs(s)))
+				}
+			}
 			r.call(hop("SplitAtIndex", "", []int{rng.Intn(30) - 5}, bs(s)))
 			t := tokens[rng.Intn(len(tokens)-1)]
 			r.call(hop("Pad", "", []int{rng.Intn(40)}, bs(s), bs(t)))
